@@ -134,6 +134,9 @@ def classify_loops(run, f, t, ctxinfo, kmax, counts):
                 if k is not None:
                     lo = lit_int(strip_casts(e["?a"])) or 0
                     n = max(0, k - lo + (1 if it[0] == "rangei" else 0))
+                    inner = [s_ for s_ in subterms(node[3]) if isinstance(s_, tuple) and s_ and s_[0] in ("for", "loop")]
+                    if inner and not consumes:
+                        run.ob(False, "loop|%s|nested-in-counted" % key0, "C02 no loop is nested inside a constant-bounded loop (the bounds would multiply)", "%s (%s)" % (f.key, f.file), "a loop inside the body of a loop bounded by %d" % n)
                     if not consumes:
                         kmax.append((n, key0, how))
                     run.ob(True, "loop|%s|range|%d" % (key0, counts["loops"]), "C02 L3", f.key, distinct="loop|%s|range|%s" % (key0, how), sample={"fn": key0, "loop": T.show(it)[:80], "class": "L3", "bound": n, "provenance": how})
